@@ -111,7 +111,7 @@ func lex(s string) ([]tok, error) {
 			i = j
 		case c == '_' || c == '#' || c >= 'a' && c <= 'z' || c >= 'A' && c <= 'Z':
 			j := i + 1
-			for j < len(s) && (s[j] == '_' || s[j] == '\'' || s[j] >= 'a' && s[j] <= 'z' || s[j] >= 'A' && s[j] <= 'Z' || s[j] >= '0' && s[j] <= '9') {
+			for j < len(s) && (s[j] == '_' || s[j] == '\'' || s[j] == '#' || s[j] >= 'a' && s[j] <= 'z' || s[j] >= 'A' && s[j] <= 'Z' || s[j] >= '0' && s[j] <= '9') {
 				j++
 			}
 			out = append(out, tok{"id", s[i:j]})
@@ -158,6 +158,7 @@ type sparser struct {
 	toks []tok
 	pos  int
 	src  string
+	noIn bool // inside the bound value of `with x = e in ...`: `in` ends the value
 }
 
 func parseSpecExpr(s string) (e SExpr, err error) {
@@ -220,11 +221,15 @@ func (p *sparser) expr() SExpr {
 		q.Body = p.expr()
 		return q
 	}
-	if p.isID("let") {
+	if p.isID("with") {
+		// expression-level binding: with x = e in body   (`let` is the contract-level clause keyword)
 		p.pos++
 		name := p.next().val
 		p.expectOp("=")
+		saved := p.noIn
+		p.noIn = true
 		v := p.iff()
+		p.noIn = saved
 		if !p.isID("in") {
 			p.fail("expected 'in'")
 		}
@@ -279,7 +284,7 @@ func (p *sparser) implies() SExpr {
 	if p.isOp("==>") {
 		p.pos++
 		var y SExpr
-		if p.isID("forall") || p.isID("exists") || p.isID("let") {
+		if p.isID("forall") || p.isID("exists") || p.isID("with") {
 			y = p.expr()
 		} else {
 			y = p.implies()
@@ -342,7 +347,7 @@ func (p *sparser) cmp() SExpr {
 			x = y
 			continue
 		}
-		if t.kind == "id" && t.val == "in" {
+		if t.kind == "id" && t.val == "in" && !p.noIn {
 			// membership: k in m ; only valid where an expression is expected
 			p.pos++
 			y := p.add()
@@ -506,6 +511,7 @@ type Contract struct {
 	Asserts    []AssertAt
 	File       string
 	Ghost      []string
+	Reveal     []string // opaque spec functions whose bodies this function's proof may use
 }
 
 type SpecLet struct {
@@ -524,6 +530,7 @@ type SpecFunc struct {
 	Params  []SVar
 	Ret     string
 	Body    SExpr // nil: uninterpreted
+	Opaque  bool  // body used only by functions whose contract says `reveal <name>`
 }
 
 type Lemma struct {
@@ -583,7 +590,7 @@ func (sp *Specs) loadSpecFile(path, pkgPath string) error {
 		}
 		first := strings.Fields(trim)[0]
 		switch first {
-		case "func", "spec", "lemma", "axiom", "requires", "ensures", "loop", "inst", "allow_panic", "trusted", "pure", "modifies", "let", "package", "assert", "noinline", "ghost":
+		case "func", "spec", "lemma", "axiom", "requires", "ensures", "loop", "inst", "allow_panic", "trusted", "pure", "modifies", "let", "package", "assert", "noinline", "ghost", "reveal":
 			clauses = append(clauses, rawClause{trim, i + 1})
 		default:
 			if len(clauses) == 0 {
@@ -736,6 +743,10 @@ func (sp *Specs) loadSpecFile(path, pkgPath string) error {
 			cur.NoInline = true
 		case "ghost":
 			cur.Ghost = append(cur.Ghost, rest)
+		case "reveal":
+			for _, n := range strings.Split(rest, ",") {
+				cur.Reveal = append(cur.Reveal, strings.TrimSpace(n))
+			}
 		case "modifies":
 			if rest == "*" {
 				cur.ModifiesAll = true
@@ -766,13 +777,18 @@ func (sp *Specs) loadSpecFile(path, pkgPath string) error {
 		case "spec":
 			// spec func name(a T, b U) R = expr     (or without "= expr": uninterpreted)
 			cur = nil
+			isOpaque := false
+			if strings.HasPrefix(rest, "opaque") {
+				isOpaque = true
+				rest = strings.TrimSpace(strings.TrimPrefix(rest, "opaque"))
+			}
 			r := strings.TrimSpace(strings.TrimPrefix(rest, "func"))
 			op := strings.Index(r, "(")
 			cp := matchParen(r, op)
 			if op < 0 || cp < 0 {
 				return fmt.Errorf("%s:%d: bad spec func", path, rc.line)
 			}
-			sf := &SpecFunc{Name: strings.TrimSpace(r[:op]), PkgPath: pkgPath}
+			sf := &SpecFunc{Name: strings.TrimSpace(r[:op]), PkgPath: pkgPath, Opaque: isOpaque}
 			for _, pr := range splitTop(r[op+1 : cp]) {
 				pr = strings.TrimSpace(pr)
 				if pr == "" {
